@@ -1,4 +1,5 @@
 import TrionModel.Lemmas.C06Mem
+import TrionModel.Lemmas.C06Inc
 import TrionModel.Props.C06Invalid
 /-!
 # C06, third clause — the diagnosed statement may be FOLLOWED BY ANYTHING and PRECEDED by any statements that returned `Ok`
@@ -110,5 +111,49 @@ theorem invalid_du {tbl : Asm.Table} (hl : S.locals = some tbl) (hnd : Asm.Table
   exact du_diag_mem du (envOf main) S l c b a' hact hev hbad S1 r1 hX
 
 end
+
+/-! ## an invalid statement inside an INCLUDED file -/
+
+/-- C06t.6  **Invalid statement in an included file.**  The main file contains `.include "p";` (anywhere, after statements
+that returned `Ok`); the included file `sibling main p` parses to `pre2 ++ el2 :: post2`, `pre2` runs there without an error
+result (from the state the include enters the file with, `enterFile S`), and `el2` is an invalid statement of one of the
+classes whose effect is one recorded diagnostic `k` and an error result (every class of `Props/C06Invalid.lean` §(a)–(g)).
+Then every finished run is not a success and reports BOTH: `k` in the INCLUDED file at `el2`'s line and column, and
+`IncludeFailed` in the main file at the `.include` statement. -/
+theorem invalid_in_included {fs : Bytes → Option Bytes} {main : Bytes} {S : Asm.St} {l c : Nat} {p data2 : Bytes}
+    (h : AtAny fs main ⟨l, c, .directive (bytesOf "include") (Args.ofList [.str p])⟩ S)
+    (hfs2 : fs (Asm.sibling main p) = some data2) {els2 : List Element} {perr2 : Option ParseErr}
+    (hp2 : Asm.parseFile data2 = .ok (els2, perr2)) {pre2 post2 : List Element} {el2 : Element}
+    (hels2 : els2 = pre2 ++ el2 :: post2) {S2 : Asm.St}
+    (hpre2 : ∀ rest perr', Asm.doAssemble fs Asm.encoder (Asm.assembleFile fs Asm.encoder (Asm.maxDepth - 2))
+        ⟨[Asm.sibling main p, main], Asm.sibling main p⟩ (pre2 ++ rest) perr' (Asm.enterFile S).2.2 =
+      Asm.doAssemble fs Asm.encoder (Asm.assembleFile fs Asm.encoder (Asm.maxDepth - 2))
+        ⟨[Asm.sibling main p, main], Asm.sibling main p⟩ rest perr' S2)
+    {k : Asm.Kind} {lv : Asm.Level}
+    (hel2 : Asm.statement fs Asm.encoder (Asm.assembleFile fs Asm.encoder (Asm.maxDepth - 2))
+        ⟨[Asm.sibling main p, main], Asm.sibling main p⟩ S2 el2 =
+      .ok (S2.push ⟨[Asm.sibling main p, main], Asm.sibling main p⟩ el2.line el2.col k, .err lv)) :
+    ∀ o, Asm.run fs main = .done o → o.success = false ∧
+      (⟨Asm.sibling main p, el2.line, el2.col, k⟩ : Asm.Diag) ∈ o.diags ∧
+      (⟨main, l, c, .dirApply "include" (.includeFailed (Asm.sibling main p))⟩ : Asm.Diag) ∈ o.diags := by
+  intro o ho
+  obtain ⟨data, els, perr, pre, post, hfs, hp, hels, hpre⟩ := h
+  have hB : ∀ st4 r4, Asm.fileBody fs Asm.encoder (Asm.assembleFile fs Asm.encoder (Asm.maxDepth - 2))
+      ⟨[Asm.sibling main p, main], Asm.sibling main p⟩ data2 (Asm.enterFile S).2.2 = .ok (st4, r4) →
+      (∃ d ∈ st4.errors, d = (⟨Asm.sibling main p, el2.line, el2.col, k⟩ : Asm.Diag)) ∧ r4.isErr = true := by
+    intro st4 r4 hF
+    refine ⟨fileBody_stmt fs Asm.encoder _ _ data2 _ els2 perr2 hp2 pre2 post2 el2 hels2 S2 hpre2
+        (Asm.assembleFile_keeps fs Asm.encoder _) _ ?_ st4 r4 hF,
+      fileBody_stmt_err fs Asm.encoder _ _ data2 _ els2 perr2 hp2 pre2 post2 el2 hels2 S2 hpre2 ?_ st4 r4 hF⟩
+    · intro S1 r1 hX; rw [hel2] at hX; cases hX; exact ⟨_, List.mem_cons_self, rfl⟩
+    · intro S1 r1 hX; rw [hel2] at hX; cases hX; rfl
+  have hst := include_stmt fs main S l c p data2 hfs2 _ hB
+  obtain ⟨hs1, d1, hd1, rfl⟩ := run_stmt_reportedP fs main data hfs els perr hp pre post _ hels S hpre
+    (fun d => d = (⟨Asm.sibling main p, el2.line, el2.col, k⟩ : Asm.Diag))
+    (fun S1 r1 hX => (hst S1 r1 hX).1) o ho
+  obtain ⟨_, d2, hd2, rfl⟩ := run_stmt_reportedP fs main data hfs els perr hp pre post _ hels S hpre
+    (fun d => d = (⟨main, l, c, .dirApply "include" (.includeFailed (Asm.sibling main p))⟩ : Asm.Diag))
+    (fun S1 r1 hX => ⟨_, (hst S1 r1 hX).2, rfl⟩) o ho
+  exact ⟨hs1, hd1, hd2⟩
 
 end Trion.C06
